@@ -1,7 +1,7 @@
 (** C15 — property theorems only.  Each is closed by [exact <lemma>] and audited with
     [Print Assumptions]; Examples give non-vacuity and keep the old defect witnesses rejected. *)
 From Coq Require Import ZArith List Bool Permutation.
-From PV Require Import Config.Model Config.Spec Config.Proofs.
+From PV Require Import Config.Model Config.Spec Config.Proofs Config.Defaults Gen.ConfigDefaults.
 Import ListNotations.
 Open Scope Z_scope.
 
@@ -225,6 +225,33 @@ Print Assumptions c15_rejects_auth_query_incomplete.
 Theorem c15_default_shard_typed : forall s d, deser_default_shard s = Some (DShard d) -> 0 <= d.
 Proof. exact deser_default_shard_typed. Qed.
 Print Assumptions c15_default_shard_typed.
+
+
+(** Defaults.  The parsed value of a defaulted option is the file's value when the file sets it
+    and the table's value when it omits it — independently of every other option; and the table
+    src/config.rs implements today (value of the function each serde attribute names,
+    regenerated by translate/cfg_defaults.py) is the pinned, documented one. *)
+Theorem c15_default_when_omitted : forall file defaults k d, lookup k defaults = Some d -> lookup k file = None ->
+  lookup k (overlay file defaults) = Some d.
+Proof. exact overlay_omitted. Qed.
+Print Assumptions c15_default_when_omitted.
+
+Theorem c15_file_value_when_set : forall file defaults k d v, lookup k defaults = Some d -> lookup k file = Some v ->
+  lookup k (overlay file defaults) = Some v.
+Proof. exact overlay_set. Qed.
+Print Assumptions c15_file_value_when_set.
+
+Theorem c15_defaults_table : gen_defaults = pinned_defaults.
+Proof. vm_compute. reflexivity. Qed.
+Print Assumptions c15_defaults_table.
+
+(* the three [general] timeouts the model of from_config falls back to are the table's *)
+Example model_timeout_defaults :
+  lookup [103;101;110;101;114;97;108;46;99;111;110;110;101;99;116;95;116;105;109;101;111;117;116] pinned_defaults = Some (DInt default_connect_timeout) /\
+  lookup [103;101;110;101;114;97;108;46;105;100;108;101;95;116;105;109;101;111;117;116] pinned_defaults = Some (DInt default_idle_timeout) /\
+  lookup [103;101;110;101;114;97;108;46;115;101;114;118;101;114;95;108;105;102;101;116;105;109;101] pinned_defaults = Some (DInt default_server_lifetime) /\
+  lookup [103;101;110;101;114;97;108;46;115;104;117;116;100;111;119;110;95;116;105;109;101;111;117;116] pinned_defaults = Some (DInt 60000).
+Proof. vm_compute. repeat split; reflexivity. Qed.
 
 (** * Non-vacuity and regression examples *)
 (* three shards written as "+1", "0", "02" (BTreeMap order), two users *)
